@@ -248,7 +248,7 @@ def run(ctx, report: Report) -> None:
     range_table(ctx, report, r5, mmod, mr, itype_var)
 
     # ---- R6 ---------------------------------------------------------------------------------------------
-    r6 = report.rule('C18-R6', 'every string a value-shape regex accepts is converted (no accepted value is lost in int()/float())', floor=2)
+    r6 = report.rule('C18-R6', 'every string a value-shape regex accepts is converted (no accepted value is lost in int()/float())', floor=27)
     from ..excflow import INT_WS
     # which conversion every group of every value-shape regex goes through, observed by interpreting parse_value per range type
     # with marked group values and recording stand-ins for int() and float() (wherever the calls sit: in parse_value, in a
@@ -342,7 +342,7 @@ def run(ctx, report: Report) -> None:
     number_edge_table(ctx, r6)
 
     # ---- R9 (Inputs.parse_value by interpretation; every year of the 400-year cycle) ------------------------------------------------
-    r9 = report.rule('C18-R9', 'week strings: weeks 1-52 of every year and week 53 of the ISO long years are valid, weeks 0 and 54 never', floor=400)
+    r9 = report.rule('C18-R9', 'week strings: weeks 1-52 of every year and week 53 of the ISO long years are valid, weeks 0 and 54 never', floor=618)
     week_count_table(ctx, r9)
 
 
